@@ -224,6 +224,9 @@ func gen(r *sim.Rng, tier string) *sim.Case {
 		p["fdata"] = r.N(2)
 	case 7:
 		p["glen"] = r.N(90)
+		if r.Pct(20) {
+			p["glen"] = r.N(400)
+		}
 		p["gkind"] = r.N(5)
 		p["api"] = r.N(5)
 	}
